@@ -610,6 +610,21 @@ def make_scenarios(ctx, cases, n, rng, kinds):
         scen.append(Scenario(f"s{k}", base["patches"], files, " ".join(note)))
     return scen
 
+def corpus_scenarios(pid):
+    """the scenarios of the seeded demonstrations of this property (corpus/<pid>/seeded_scenarios.json)"""
+    pth = os.path.join(VERIF, "corpus", pid, "seeded_scenarios.json")
+    if not os.path.exists(pth):
+        return []
+    out = []
+    for k, w in enumerate(json.load(open(pth))):
+        # files under directories the walk skips are not part of a directory run; the scenario machinery assumes they are
+        files = {rel: src for rel, src in w["files"].items()
+                 if not any(c in ("vendor", "testdata") or c.startswith((".", "_")) for c in rel.split("/")[:-1])}
+        if not files:
+            continue
+        out.append(Scenario(f"demo{k}", w["patches"], files, "inputs of a seeded demonstration: " + w["id"]))
+    return out
+
 def setup_scenario(ctx, sc):
     root = ctx.scratch(sc.id)
     for i, p in enumerate(sc.patches):
@@ -756,7 +771,7 @@ def cli_family(ctx, kinds, optsets, categories, n_quick, n_thorough, gen_mode="m
     rng = random.Random(ctx.seed)
     n = n_quick if ctx.tier == "quick" else n_thorough
     cases = gen_cases(ctx, gen_mode, 150 if ctx.tier == "quick" else 1500, ctx.seed)
-    scen = make_scenarios(ctx, cases, n, rng, kinds)
+    scen = make_scenarios(ctx, cases, n, rng, kinds) + corpus_scenarios(ctx.pid)
     def one(sc):
         out = []
         root, pargs = setup_scenario(ctx, sc)
@@ -862,6 +877,7 @@ def c06(ctx):
     for k, sc in enumerate(make_scenarios(ctx, gcases, min(len(gcases), 15 if ctx.tier == "quick" else 300), rng, {"imports-only", "guard-miss"}) if gcases else []):
         sc.id = f"g{k}"
         scen.append(sc)
+    scen += corpus_scenarios("C06")
     decisions.update(model_decisions(ctx, scen))
     run_scenarios(ctx, scen, [[], ["print"], ["diff"], ["print", "si"], ["sg"]], {"unmatched", "stdout", "exit"}, post)
     triples = []
@@ -1185,6 +1201,7 @@ def c07(ctx):
         for fname, deco in BYTE_DECORATIONS:
             scen.append(Scenario(f"valid{k}-{fname}", [vp], {"m.go": deco(vs), "other.go": "package a\n\nfunc g() { foo(7) }\n"},
                                  "valid rewrite in a file with " + fname))
+    scen += corpus_scenarios("C07")
     optsets = [[], ["si"], ["print"], ["print", "si"], ["diff"], ["diff", "si"]]
     run_scenarios(ctx, scen, optsets, {"write", "stdout", "exit"}, post)
     # a rewrite that does not parse must fail with and without import processing alike
@@ -1308,6 +1325,7 @@ def c14(ctx):
         files2 = {nm: ("package a\n\nfunc f() {\n\tcall(obj, mk())\n}\n" if "bad" in nm else f"package a\n\nfunc g{j}() {{\n\tcall(obj, Name{j})\n}}\n") for j, nm in enumerate(names)}
         scen.append(Scenario(f"rerr2_{pos}", ["@@\nvar recv, name expression\n@@\n-call(recv, name)\n+recv.name()\n"], files2,
                              "site-dependent rewrite error before a file where the change applies"))
+    scen += corpus_scenarios("C14")
     optsets = [["print"], ["diff"], [], ["print", "sg"], ["si"], ["print", "si"]]
     def one(sc):
         out = []
@@ -1547,6 +1565,7 @@ def c16(ctx):
             if i["abs"] not in obs["stderr"] and i["provided"] not in obs["stderr"]:
                 out.append(f"stderr does not name {i['provided']}")
         return out
+    scen += corpus_scenarios("C16")
     run_scenarios(ctx, scen, [[], ["print"], ["diff"]], {"write", "stdout", "exit", "report", "unmatched"}, post)
     # missing path / missing patch / patches-file naming a missing patch
     root = ctx.scratch("missing")
